@@ -16,7 +16,9 @@ Print Assumptions C06_refines_memory.
 
 (* The same for the OCI layout store (blob files by digest + resolver with the implicit
    tag-by-digest + graph, Untag, Delete without AutoGC, Tags), for every history over a
-   universe U in which every digest is used with one media type and size. *)
+   universe U in which content is pushed and deleted under the universe's descriptor of
+   its digest ([canon_op]); Fetch, Exists, Tag and Predecessors may use any descriptor of
+   the digest, e.g. the application/octet-stream one Resolve(<digest>) hands out. *)
 Theorem C06_refines_oci : forall U : N -> gkey,
   (forall g, k_dig (U g) = g) ->
   forall h : list op, Forall (canon_op U) h ->
@@ -94,14 +96,15 @@ Theorem C06_resolve_latest_oci : forall h1 d n h2,
 Proof. exact oci_resolve_latest. Qed.
 Print Assumptions C06_resolve_latest_oci.
 
-(* OCI: Delete removes the content and every name that pointed to it *)
+(* OCI: Delete removes the content and every name that pointed to that digest, whatever
+   media type or size it was tagged with (after the audit-F3 repair of Store.delete) *)
 Theorem C06_delete_clears_oci : forall h1 d,
   let s := fst (run oci_step oci_init h1) in
   snd (oci_step s (Delete d)) = OOk ->
   let s' := fst (oci_step s (Delete d)) in
   snd (oci_step s' (Fetch d)) = OErr ENotFound /\
   snd (oci_step s' (Exists d)) = OBool false /\
-  forall n d', get ref_eqb (RName n) (r_index (o_res s)) = Some d' -> gk d' = gk d ->
+  forall n d', get ref_eqb (RName n) (r_index (o_res s)) = Some d' -> d_dig d' = d_dig d ->
                snd (oci_step s' (Resolve (RName n))) = OErr ENotFound.
 Proof. exact oci_delete_clears. Qed.
 Print Assumptions C06_delete_clears_oci.
